@@ -92,11 +92,13 @@ def pathOf (attrs : List Attr) : Option (Option (List Seg)) :=
   | some ⟨_, _, .bin b⟩ => some (segsOf b)
   | some _ => some none
 
-/-- the reference speaks only about routes whose AS_PATH (if any) is one the wire decoder accepts -/
+/-- the reference speaks only about routes whose AS_PATH (if any) is one the wire decoder
+    produces: a byte string that parses as segments -/
 def pathOk (attrs : List Attr) : Bool :=
-  match pathOf attrs with
-  | some none => false
-  | _ => true
+  match attrOf AS_PATH attrs with
+  | none => true
+  | some ⟨_, _, .bin b⟩ => (segsOf b).isSome && b.all (· < 256)
+  | some _ => false
 
 def flatAsns (segs : List Seg) : List Nat := (segs.map (·.asns)).flatten
 
